@@ -11,6 +11,7 @@ from .units import k_replay
 from .units import l3run
 from .units.d import UnitD
 from .units import d_replay
+from .units.f import UnitF
 from .units import r_replay
 
 
@@ -208,7 +209,7 @@ def l3_witness(pid, fails, repo):
     if g['status'] != 'OK':
         return out
     em = Emitted(g['out'])
-    m = re.search(r'(?:shape:|sig:|emitted::|wire:)(?:(\w+)::)?(\w+)', f.obligation)
+    m = re.search(r'(?:shape:|sig:|emitted::|wire:|ns:|order:)(?:(\w+)::)?(\w+)', f.obligation)
     names = [x for x in (m.groups() if m else ()) if x]
     shown = []
     for it in em.items:
@@ -240,7 +241,7 @@ PROPS['C07']['level_note'] += (' L3: contracts of the helper runtime are importe
                                'Known finding: own facets of a simple type derived from a named simple type are not enforced.')
 
 PROPS['C02'] = {
-    'units': [], 'level': 'translation_validation', 'design_ref': 'DESIGN.md 4.2', 'extra': l3_extra, 'witness': l3_witness,
+    'units': [UnitF], 'level': 'translation_validation', 'design_ref': 'DESIGN.md 4.2', 'extra': l3_extra, 'witness': l3_witness,
     'scope': 'shape of the emitted structs per corpus program: one struct per named complex/simple type and anonymous-typed global element, in the '
              'module of its namespace, with exactly the declared members (inherited first), names in snake_case (keywords respelled), wrapped '
              'T / Option<T> / Vec<T> by occurrence, typed by the reference mapping of DESIGN 2.2',
@@ -250,7 +251,7 @@ PROPS['C02'] = {
                   'A type error inside a shape contract is the disagreement. Per program, not for all schemas.',
     'level_note': 'The deciding step is rustc\'s type checker inside Verus, not an SMT obligation (reported as translation_validation, never as proof). '
                   'Trusted: the independent reader (vp/l3/model.py) and its PascalCase/snake_case rules, valid for the corpus vocabulary. '
-                  'Not covered: schemas outside the corpus, derive-generated (de)serialisers, the L2 table/flag contracts of DESIGN 4.2 (not built).',
+                  'Additionally the builtin table of field.rs::as_rust_type is PROVED for all strings (unit F, 27 rows + the named-type arm). Not covered: schemas outside the corpus, derive-generated (de)serialisers, the occurrence-flag and flattening contracts of DESIGN 4.2 on Field::try_from_node / complex.rs (roxmltree-driven; not built).',
     'technique': 'schema-derived ghost shape contracts type-checked by Verus against the code emitted by the current generator',
     'assumptions': ['independent schema reader implements DESIGN 2.1/2.2 faithfully', 'corpus names are in the vocabulary whose case conversion is unambiguous'],
 }
@@ -361,6 +362,22 @@ PROPS['C08'] = {
     'assumptions': ['independent schema reader implements XSD extension semantics (base content, then own content, then attributes in declaration order of each level)'],
 }
 
+PROPS['C09'] = {
+    'units': [UnitF], 'level': 'proof', 'design_ref': 'DESIGN.md 4.9', 'extra': l3_extra, 'witness': l3_witness,
+    'scope': '(L2, proof) field.rs split_type / resolve_type / as_rust_type and doc.rs find_namespace_by_abbreviation / '
+             'find_module_name_from_namespace_reference: a QName is split at its first colon and its prefix is resolved through the document\'s '
+             'prefix table only; (L3, per program) in corpus programs that reuse local names across namespaces, component kinds, files and '
+             'declaration orders, every type=, base=, ref= and message-part reference in the emitted code is bound to the struct of the right module',
+    'level_text': 'Deductive proof (Verus/Z3), for all strings and all prefix tables: split_type returns (local part, prefix) as defined by the first '
+                  '\':\' (lemma: "p:n" with colon-free p splits into exactly (p, n)); resolve_type returns the namespace entry bound to that prefix (or None); '
+                  'as_rust_type names a non-builtin type PascalCase(local) in the module of the entry bound to the prefix, and maps the 27 builtins to the '
+                  'reference carriers (C02 table). Plus L3 translation validation of the emitted member / envelope types on multi-namespace programs.',
+    'level_note': 'NOT covered by proof: find_node_by_xml_name and its tree-search fallback (they call into the roxmltree-driven reader) — the fallback is known '
+                  'to ignore namespace and component kind; their effect is only observed per program by the L3 shape contracts. Trusted: str::split_once '
+                  'axiom (first occurrence), HashMap<String,_> lookup by &str, Inflector stand-in (pascal is an uninterpreted function).',
+    'assumptions': ['split_once(char) splits at the first occurrence', 'String keys are determined by their text'],
+}
+
 PLANNED = 'claimed in DESIGN.md but the check is not built yet at this commit (listed here so that no unbuilt check is advertised)'
 NOT_APPLICABLE = {
     'C01': 'Compilability of a whole emitted file is decided by rustc name resolution/type checking and yaserde_derive proc-macro expansion; no pre/postcondition of a zeep function entails it and Verus cannot load the dependency crates (DESIGN 4.1).',
@@ -370,7 +387,6 @@ NOT_APPLICABLE = {
     'C12': 'Determinism across processes/hash seeds/registration orders is a hyperproperty over pairs of runs (HashMap RandomState, flags persisting across calls); not expressible as a per-call contract without a complete functional spec of the generator (DESIGN 4.12).',
     'C17': 'Process-level observables (exit status, panics as error path, clap, File::create effects); no function result to attach a postcondition to and no file-system model in Verus/Kani (DESIGN 4.17).',
     'C18': 'Send/Sync are auto traits decided by rustc\'s trait solver over the real reqwest future types; neither verifier has a notion of auto traits (DESIGN 4.18).',
-    'C09': PLANNED,
     
 }
 NOTES = ('All checks: ./check <id> [--tier quick|thorough]; exit 0 ok, 1 VIOLATION, 2 inconclusive (lost anchor / unsupported '
